@@ -830,7 +830,7 @@ def coq_gen_text(cfg, libcache, sets, guard):
 
 
 # ====================================================================== implementation harness
-DEG_POOL = {"lebedev": [3, 4, 5, 7], "spherical": [1, 3, 4, 5], "maxdet": [1, 2, 3, 5], "ahrens_beylkin": [5, 14, 19]}
+DEG_POOL = {"lebedev": [3, 4, 5, 7], "spherical": [1, 3, 4, 5], "maxdet": [1, 2, 3, 5, 14], "ahrens_beylkin": [5, 14, 19]}
 WITNESS_DEG = {"lebedev": 5, "spherical": 5, "maxdet": 5, "ahrens_beylkin": 14, "coulomb": 6}
 ELEMENTS = {1: "H", 6: "C", 7: "N", 8: "O", 17: "Cl"}
 RAD_PTS = [0.5, 1.0, 1.75]
@@ -868,8 +868,12 @@ class Impl:
     def caches(self):
         return {m: getattr(self.A, self.cache_names[m]) for m in METHODS}
 
+    def all_cache_dicts(self):
+        ds = [v for k, v in vars(self.A).items() if k.endswith("_CACHE") and isinstance(v, dict)]
+        return ds + [c for c in self.caches().values() if not any(c is d for d in ds)]
+
     def reset(self):
-        for c in self.caches().values():
+        for c in self.all_cache_dicts():
             c.clear()
         self.C._ATOMIC_GAUSS_PARAMS_CACHE = None
 
@@ -877,7 +881,7 @@ class Impl:
         """Value of fn() in a process state with empty caches (the live caches are put back afterwards)."""
         if key in self.pristine_memo:
             return self.pristine_memo[key]
-        saved = [(c, dict(c)) for c in self.caches().values()]
+        saved = [(c, dict(c)) for c in self.all_cache_dicts()]
         sc = self.C._ATOMIC_GAUSS_PARAMS_CACHE
         for c, _ in saved:
             c.clear()
@@ -908,6 +912,9 @@ class Impl:
             else:
                 _, size = self.resolve(m, d)
                 f = SRC / "data" / DATA_DIR[m] / f"{m}_{d}_{size}.npz"
+                if self.resolve(m, d)[0] != d or not f.exists():
+                    self.raw_memo[(m, d)] = None  # no such grid is shipped (a cache key that should not exist)
+                    return None
                 with np.load(f) as z:
                     p, w = np.array(z["points"]), np.array(z["weights"])
                 if len(w) == 1:
@@ -998,7 +1005,13 @@ class Run:
         except Exception:
             return f"[{UNKNOWN_BLOCK}]"
         ki = 0 if k == "KP" else 1
-        raw = self.impl.raw(m, d)[ki]
+        try:
+            rawpair = self.impl.raw(m, d)
+        except Exception:  # noqa: BLE001
+            rawpair = None
+        if rawpair is None:
+            return f"[{UNKNOWN_BLOCK}]"
+        raw = rawpair[ki]
         if a.shape != raw.shape:
             return f"[{UNKNOWN_BLOCK}]"
         b = a.tobytes()
@@ -1425,7 +1438,7 @@ def witness_search(ctx: Ctx, impl: Impl, spec_n):
                     continue
                 cases.append(f"refines_at cfg_src [{'; '.join(mops)}] {COQ_M[m]} {d} {k}")
                 meta.append((m, d, k, h))
-    bad = ctx.coq_bool_cases("C19_witness", HEADER, cases, shard=1500)
+    bad = bool_cases(ctx, "C19_witness", HEADER, cases, shard=1500)
     first = {}
     for i in bad:
         m, d, k, h = meta[i]
@@ -1540,7 +1553,7 @@ def transform_tie(ctx: Ctx, n, rep):
         meta.append((cname, b0, calls, bs, errs))
         if i < 2:
             ctx.sample({"transform": cname, "b": b0, "calls": calls, "b_after_each_call": bs, "raised": errs})
-    bad = ctx.coq_bool_cases("C19_tcases", HEADER + "Open Scope Z_scope.\n", cases, shard=2000)
+    bad = bool_cases(ctx, "C19_tcases", HEADER + "Open Scope Z_scope.\n", cases, shard=2000)
     for i in bad:
         cname, b0, calls, bs, errs = meta[i]
         key = f"{cname}(b={b0}); " + "; ".join(f"{mm}({xx})" for mm, xx in calls)
@@ -1581,7 +1594,7 @@ def eval_traces(ctx: Ctx, impl, spec_n, name, histories):
         except Exception as e:  # noqa: BLE001 - the implementation crashed on this history: counts as a disagreement
             cases.append("false")
     impl.reset()
-    bad = set(ctx.coq_bool_cases(name, HEADER, cases, shard=400))
+    bad = set(bool_cases(ctx, name, HEADER, cases, shard=400))
     return [i not in bad for i in range(len(histories))]
 
 
@@ -1661,6 +1674,18 @@ def probe_violation(ctx: Ctx, impl, spec_n, h, tagname):
     nobj = len(r.objs)
     pairs = sorted({(o["m"], o["d"]) for o in r.objs if o["kind"] in ("ang", "params")}
                    | {(o["m"], d) for o in r.objs if o["kind"] == "atom" for d in o["ds"]})
+    # the same degree under the other methods (a cache shared between methods shows there)
+    extra = set()
+    for m, d in pairs:
+        if m == "coulomb":
+            continue
+        for m2 in METHODS:
+            try:
+                if m2 != m and impl.resolve(m2, d)[0] == d:
+                    extra.add((m2, d))
+            except Exception:  # noqa: BLE001
+                pass
+    pairs = sorted(set(pairs) | extra)
     impl.reset()
     tag0 = 500
     exts = [[]] + [[["mut", kk, oi, tag0]] for oi in range(nobj) for kk in "PW"]
@@ -1685,7 +1710,7 @@ def probe_violation(ctx: Ctx, impl, spec_n, h, tagname):
     impl.reset()
     if not cases:
         return None
-    bad = set(ctx.coq_bool_cases(f"C19_probe_{tagname}", HEADER, cases, shard=400))
+    bad = set(bool_cases(ctx, f"C19_probe_{tagname}", HEADER, cases, shard=400))
     best = None
     for i, ((e, m, d, k), (arr, same)) in enumerate(zip(probes, results)):
         if not same and i not in bad:  # implementation violates, the model (hence every theorem about cfg_src) says it cannot
@@ -1702,6 +1727,14 @@ def fingerprint(arr):
 MAXREP = 3
 
 
+def bool_cases(ctx: Ctx, name, header, cases, shard=400):
+    """ctx.coq_bool_cases with one retry (a coqc killed under memory pressure must not look like a disagreement)."""
+    try:
+        return ctx.coq_bool_cases(name, header, cases, shard=shard)
+    except RuntimeError:
+        return ctx.coq_bool_cases(name + "_retry", header, cases, shard=shard)
+
+
 class Reports:
     """Collects failures; at most MAXREP per obligation are passed on (concrete inputs first, smallest first)."""
 
@@ -1709,6 +1742,8 @@ class Reports:
         self.items = []
 
     def add(self, obligation, size, key, observed, text, replay, found=True):
+        if any(it[0] == obligation and it[4] == key for it in self.items):
+            return
         self.items.append((obligation, not found, size, len(key), key, observed, text, replay, found))
 
     def flush(self, ctx: Ctx):
@@ -1776,6 +1811,8 @@ def run(ctx: Ctx):
     # ---------------------------------------------------------------- prove
     ctx.copy_coq("C19")
     status = ctx.coq_build()
+    if not all(status.values()) and any(not status[n] and not ctx.logs.get(n, "").strip() for n in status):
+        status = ctx.coq_build()  # a coqc that died without any message (memory pressure): compile once more
     ctx.register_props(status)
     if not status.get("C19_model.v", False) or not status.get("C19_gen.v", False):
         raise RuntimeError("C19 model / generated configuration does not compile: " + (ctx.logs.get("C19_gen.v", "") + ctx.logs.get("C19_model.v", ""))[-600:])
@@ -1862,11 +1899,11 @@ def run(ctx: Ctx):
         if i < 3:
             ctx.sample({"history": py_of_history(h)})
     impl.reset()
-    bad = ctx.coq_bool_cases("C19_hist", HEADER, cases, shard=400)
+    bad = bool_cases(ctx, "C19_hist", HEADER, cases, shard=400)
     ctx.cov["histories"] = nh
     ctx.cov["history_disagreements"] = len(bad)
     reported = 0
-    for i in sorted(bad, key=lambda i: len(hs[i]))[:3]:
+    for i in sorted(bad, key=lambda i: len(hs[i]))[:2]:
         h = hs[i]
         hmin = minimise(ctx, impl, spec_n, h, f"h{i}")
         best = probe_violation(ctx, impl, spec_n, hmin, f"h{i}")
